@@ -136,7 +136,7 @@ void harness(void)
         if (tok != NULL && ctx != NULL) CHECK(ctx >= buf && (size_t)(ctx - buf) + dmax <= dmax0, "C14: context pointer + remaining length reach past the original dmax");
         CHECK(dmax <= dmax_before, "C14: remaining length grew");
     }
-    CANARY(!(terminated && p > 2), "two or more scan steps reachable");
+    CANARY(!(terminated && p >= 2), "two or more scan steps reachable");
     CANARY(!errored, "unterminated-string error reachable");
 }
 VERIF_MAIN(harness)
